@@ -1123,7 +1123,9 @@ func (c *FnCtx) mapLen(st *State, m Val) *Term {
 	ks := mapKeySort(mt)
 	c.decls.Fun("maplen_"+ks, []string{ArrS(ks, SBool)}, SInt)
 	has := c.get(st, mapFam(mt, "has"), ArrS(SInt, ArrS(ks, SBool)))
-	return App("maplen_"+ks, SInt, Select(has, m.L[0]))
+	n := App("maplen_"+ks, SInt, Select(has, m.L[0]))
+	c.addFact(Ge(n, IntT(0)))
+	return n
 }
 
 // indexOffsets inspects the index arguments of select terms mentioning the bound variable k. An index that is
